@@ -243,6 +243,18 @@ example : (StreamIn.request ⟨2, 0, []⟩ [0, 5, 0x78] [.reply [0x41], .reply [
     (StreamIn.request ⟨2, 0, []⟩ [0, 6, 0x79] [.defer, .ret (-4)]).frames = [[0x80, 6, 1, 0xfc]] ∧
     (StreamIn.request ⟨2, 0, []⟩ [0x80, 6, 0x79] [.reply [1]]).frames = [] := by decide
 
+/-- stream variant, retry: a reply attempt the stream cannot take (`mpt_stream_reply` < 0, act `replyFail`) is refused,
+    puts nothing on the stream and leaves the pending request exactly as it was, reply mark taken back — so the next
+    attempt, or the default reply, goes out once with the same id (`stream_one_reply` holds for act lists with failed
+    attempts in any position: `firstReply` skips them) -/
+theorem stream_retry (s : StreamIn.SIn) (msg : Option (List Byte)) (h0 : s.rdlen ≠ 0) (hv : (s.val.headD 0).toNat < 128) :
+    StreamIn.sreply s msg false = (Err.BadArgument.code, s, none) := by
+  obtain ⟨idlen, rdlen, val⟩ := s
+  simp only at h0 hv
+  simp [StreamIn.sreply, h0, StreamIn.unmark_mark val hv]
+example : (StreamIn.request ⟨2, 0, []⟩ [0, 5, 0x78] [.replyFail [0x41], .reply [0x42], .reply [0x43]]).frames = [[0x80, 5, 0x42]] ∧
+    (StreamIn.request ⟨2, 0, []⟩ [0, 5, 0x78] [.replyFail [0x41], .ret 3]).frames = [[0x80, 5, 1, 0]] := by decide
+
 /-- at most one frame per request, and it starts with the marked request id -/
 theorem stream_at_most_once (s : StreamIn.SIn) (hs : s.rdlen = 0) (data : List Byte) (acts : List StreamIn.Act) :
     (StreamIn.request s data acts).frames.length ≤ 1 ∧
